@@ -19,7 +19,10 @@ func (d *Data) GetLabelAtScaledPoint(v dvid.VersionID, pt dvid.Point, scale uint
 		return 0, fmt.Errorf("Can't determine block of point %s", pt)
 	}
 	blockSize := d.BlockSize()
-	bcoord := coord.Chunk(blockSize).(dvid.ChunkPoint3d)
+	bcoord, ok := coord.Chunk(blockSize).(dvid.ChunkPoint3d)
+	if !ok {
+		return 0, fmt.Errorf("point %s must be a 3d coordinate", pt)
+	}
 
 	labelData, err := d.getBlockLabels(v, bcoord, scale, supervoxels)
 	if err != nil {
